@@ -67,6 +67,7 @@ static void misuse_exit(void) { _exit(77); }
 
 int hx_in_child(void (*fn)(void *arg, FILE *o), void *arg, char *outbuf, size_t outcap) {
     int pfd[2], st; pid_t pid; ssize_t r; size_t got = 0;
+    if (getenv("HX_NOFORK") != NULL) { outbuf[0] = 0; return 3; }   /* threaded workload (C19): ops that would fork are identified and left out */
     fflush(NULL);
     if (pipe(pfd) != 0) return 2;
     pid = fork();
